@@ -124,7 +124,7 @@ def run(ctx: Ctx) -> Result:
     COUNT.clear()
     st = explore_all(
         ctx, [make_factory(s, ctx.tier) for s in specs],
-        max_states=ctx.pick(6000, 60000), max_seconds=ctx.pick(110, 1500))
+        max_states=ctx.pick(6000, 60000), max_seconds=ctx.pick(1500, 6000))
     seen = COUNT.collect()
     if not st.violations and not st.error:
         need = NEED + (('followups', 'removed-instance-ran-again')
